@@ -108,6 +108,10 @@ def build_plan(choice: Choice, tier):
             ops.append(["set_bad", d(6, "i") + 50])      # far out of range
         elif k == 16:
             ops.append(["set_nonstr"])
+        elif k == 17:
+            ops.append(["iter_start"])      # the client starts an iteration that stays open across later operations
+        elif k in (18, 19):
+            ops.append(["iter_next"])       # ... and takes its next item (a list iterator sees the edits made meanwhile)
         elif k == 20:
             ops.append(["index_of", d(10, "i")])
         elif k == 21:
@@ -282,8 +286,32 @@ def execute(plan, choice, tmpdir, trace):
         form = op[2] if len(op) > 2 else "list"
         return {"list": list(xs), "tuple": tuple(xs), "generator": (x for x in xs), "iterator": iter(list(xs))}[form]
 
-    def do(op):
+    iters = {}
+
+    def do(op, cid=0):
         k = op[0]
+        if k in ("iter_start", "iter_next"):
+            if k == "iter_start" or cid not in iters:
+                iters[cid] = (iter(obj), iter(model))
+                if k == "iter_start":
+                    return
+            it_o, it_m = iters[cid]
+            stats["iter_steps"] = stats.get("iter_steps", 0) + 1
+            try:
+                exp = ("item", next(it_m))
+            except StopIteration:
+                exp = ("stop", None)
+            try:
+                got = ("item", next(it_o))
+            except StopIteration:
+                got = ("stop", None)
+            except Exception as e:  # noqa
+                got = ("error", repr(e))
+            if got != exp:
+                v("list-model", f"iteration-across-edits:{got[0]}",
+                  f"an iteration that was started earlier gives {got!r} where the iterator of a list gives {exp!r}")
+                iters.pop(cid, None)
+            return
         if k == "set":
             i, s = op[1], to_item(op[2])
 
@@ -492,7 +520,7 @@ def execute(plan, choice, tmpdir, trace):
     def client(cid):
         for op, a in zip(plan["ops"], plan["assign"]):
             if a == cid:
-                do(op)
+                do(op, cid)
                 yield op[0] if op[0] != "save" else f"save:{op[3]}"
 
     fds_before = set(os.listdir("/proc/self/fd"))
